@@ -15,7 +15,7 @@ From SqlModel Require Import Skeleton SkeletonFacts Skel SkelFacts WsRun.
 From SqlModel.Gen Require Import CaseTabs SplitTab Rules.
 From SqlModel.Inst Require Import Cur CaseInv WsRunInst C11Wit C11Case C11Multi C11Run.
 From SqlModel Require Import RunInvDefs RunInv RunLex RunLexAll LexFacts.
-From SqlModel.Inst Require C11RunAll.
+From SqlModel.Inst Require C11RunAll C11RunSplit.
 
 (* ---- lexer ---------------------------------------------------------------------------------- *)
 (* letter case of ASCII letters: same token types and boundaries (keywords, and everything else) *)
@@ -111,6 +111,19 @@ Theorem C11_lex_run_types : forall t t' l l',
   cur_lex t = Ok l -> cur_lex t' = Ok l' -> C11RunAll.sigtypes l = C11RunAll.sigtypes l'.
 Proof. exact C11RunAll.C11_lex_run_types. Qed.
 Print Assumptions C11_lex_run_types.
+
+(* FROM THE TEXT TO THE STATEMENTS: composed with C11_split below.  Two texts over the covered characters that are equal
+   after collapsing every white-space run to one marker are split into the same statements, with the same significant
+   tokens in each.  Two side conditions on the token lists, both decidable: no significant non-keyword token has white
+   space inside its value (the two-word builtin DOUBLE PRECISION has: the skeleton relation compares such values as they
+   are), and the guard of C11_split about single-line comments (none can occur here: `-` and `#` are not covered). *)
+Theorem C11_text_split_run : forall t t' l l',
+  sq RSp false t = sq RSp false t' -> C11RunAll.oktextb t = true -> C11RunAll.oktextb t' = true ->
+  cur_lex t = Ok l -> cur_lex t' = Ok l' ->
+  C11RunSplit.nonkw_nospace l = true -> brk_agreeb l l' = true ->
+  stmt_sigs (cur_process l) = stmt_sigs (cur_process l').
+Proof. exact C11RunSplit.C11_text_split_run. Qed.
+Print Assumptions C11_text_split_run.
 
 (* the generic statement: any rule table that meets table_ok *)
 Theorem C11_lex_all_generic : forall lower upper rules kws S oktext, table_ok lower rules kws S oktext ->
